@@ -112,6 +112,42 @@ class Gen:
         b = self.bban(cc, rng, variant)
         return cc + canonical_digits(cc, b) + b
 
+    def self_similar_iban(self, cc, rng, tries=12):
+        """A valid IBAN whose BBAN contains the IBAN's own first four characters (country code + check digits) again -
+        repeated substrings are where replace()/find()-style shortcuts go wrong. None if the structure has no room."""
+        cl = self.classes(cc)
+        spots = [i for i in range(len(cl) - 3) if cl[i] in "ac" and cl[i + 1] in "ac" and cl[i + 2] in "nc" and cl[i + 3] in "nc"]
+        if not spots:
+            return None
+        for _ in range(tries):
+            b = self.bban(cc, rng)
+            i = rng.choice(spots)
+            for d in range(2, 99):
+                dd = f"{d:02d}"
+                b2 = b[:i] + cc + dd + b[i + 4:]
+                if canonical_digits(cc, b2) == dd:
+                    return cc + dd + b2
+        return None
+
+    def near_self_similar_iban(self, cc, rng, tries=6):
+        """A valid IBAN whose BBAN contains the country code followed by two digits that differ from the IBAN's check digits in
+        exactly one position: a single typing error creates (or destroys) a repetition of the IBAN's head inside the BBAN."""
+        cl = self.classes(cc)
+        spots = [i for i in range(len(cl) - 3) if cl[i] in "ac" and cl[i + 1] in "ac" and cl[i + 2] in "nc" and cl[i + 3] in "nc"]
+        if not spots:
+            return None
+        for _ in range(tries):
+            b = self.bban(cc, rng)
+            i = rng.choice(spots)
+            start = rng.randrange(100)
+            for k in range(100):
+                xy = f"{(start + k) % 100:02d}"
+                b2 = b[:i] + cc + xy + b[i + 4:]
+                dd = canonical_digits(cc, b2)
+                if (xy[0] == dd[0]) != (xy[1] == dd[1]):
+                    return cc + dd + b2
+        return None
+
     def iban_of(self, cc, bban):
         return cc + canonical_digits(cc, bban) + bban
 
